@@ -5,6 +5,16 @@ HERE = os.path.dirname(os.path.abspath(__file__))
 
 # id -> (implemented, engine, level, technique, text, note, design_ref)
 CHECKS = {
+ "C17": (True, "macenum", "exploration",
+   "exhaustive enumeration of records / mutation lists over a 3-byte alphabet on the real MAC functions of both sides, collision search by hash map",
+   "Every record (key of 1-2 characters, version bytes, value of 0-2 bytes over {0x00,'a','b'}) is written with prepare_value_for_put and its stored bytes are presented under every other (key, version) together with shifted/prefixed bytes, and with every single-bit flip, truncation and extension; every list of <= 2 records (plus merged records) is tagged with compute_shared_hmac on the signer side and the storage-library side (compared with each other), collisions between different lists are searched exhaustively; replay under a new nonce, modified and truncated tags are refused.",
+   "HMAC-SHA256 trusted. The unframed-MAC collisions found on the unchanged tree are recorded as known findings, one key per boundary that moves.",
+   "7.2"),
+ "C18": (True, "keysrel", "exploration",
+   "exhaustive enumeration of channel-creation orders, restart points and setup masks on real nodes with a relational oracle",
+   "Seeds x {native, LDK} x networks x every ordered arrangement of every non-empty subset of channel ids {1,2,3} x restart position x set-up mask: basepoints, funding key, per-commitment points and 16 secrets of every channel are observed as stub, after setup and at the end; all observations of the same (seed, style, network, id) must be identical across all runs, different ids/seeds must give different keys, and the secrets must equal an independent BOLT-3 generate_from_seed and be accepted in order by the compact store.",
+   "Secrets are read from the key material (not through the policy path).",
+   "7.3"),
  "C12": (True, "velocity+nodevel", "model_checking",
    "explicit-state search over the real VelocityControl (closes per config) and bounded exhaustive histories of approvals, clock advances and restarts on a real node, against a sliding-window oracle",
    "Component: for limits {0, 100, 2^64-2}, 1-4 buckets and the three interval types, every sequence of insert(now+dt, amount) over bucket-edge time deltas and limit-edge amounts up to the depth bound / state closure, with the sum of approved amounts in any (N-1)-bucket window compared with the limit in u128. Node: every history of <= 5 (7) letters (keysend / invoice / on-chain fee at limit edges, clock +1/+11/+12 buckets, restart) on a real node with hourly limits; the same oracle on the log of approvals, across restarts.",
